@@ -561,12 +561,23 @@ def run_routine(ctx, case):
             A = cola.PSD(B.build(hs))
             fn = S.pick(rng, [L.exp, L.sqrt, L.log, L.isqrt])
             alg = S.pick(rng, [L.Eigh(), L.Lanczos(max_iters=n + 1, tol=1e-12), L.Lanczos(max_iters=n + 1, tol=1e-12), L.Arnoldi(max_iters=n + 1, tol=1e-12), L.Auto()])
+            extra = {}
+            if case.get("force_complex_f") or rng.random() < 0.3:
+                # user functions through apply_unary: real-valued ones (f(A) of a Hermitian A is Hermitian) and complex-valued ones
+                # (i A is skew-Hermitian, exp(i A) is unitary: neither is self-adjoint)
+                fname = "i*x" if case.get("force_complex_f") else S.pick(rng, ["cube+1", "cos", "neg", "i*x", "exp(ix)"])
+                f_ = {"cube+1": lambda x: x**3 + 1, "cos": np.cos, "neg": lambda x: -x, "i*x": lambda x: 1j * x, "exp(ix)": lambda x: np.exp(1j * x)}[fname]
+                fn = lambda A_, alg_, f_=f_: L.apply_unary(f_, A_, alg_)  # noqa: E731
+                fn.__name__ = "apply_unary"
+                extra = {"f": fname, "f_complex_valued": fname in ("i*x", "exp(ix)")}
+                if case.get("force_complex_f"):
+                    alg = L.Lanczos(max_iters=n + 1, tol=1e-12)
             F = fn(A, alg)
             if type(F).__name__.startswith(("LanczosUnary", "ArnoldiUnary")):
                 # a lazy Krylov operator: everything it reports is judged on its action on the identity
-                X = np.eye(n, dtype=P.DT[dt])
+                X = np.eye(n, dtype=P.DT[dt] if not extra.get("f_complex_valued") else np.complex128)
                 D = np.asarray(F @ X)
-                judge_output(ctx, type(F).__name__.split("[")[0], F, {"fn": fn.__name__, "spectrum_below_one": hs["eigs"][0] < 1}, dense=D)
+                judge_output(ctx, type(F).__name__.split("[")[0], F, dict({"fn": fn.__name__, "spectrum_below_one": hs["eigs"][0] < 1}, **extra), dense=D)
             else:
                 judge_output(ctx, "unary.result", F, {})
         elif r == "inv_unitary":
